@@ -110,18 +110,24 @@ structure Conn where
   cache : List StmtKind := []
   deriving DecidableEq, Repr
 
-/-- `cursor.execute()`: statement cache / prepare, implicit BEGIN, bind, step -/
+/-- `cursor.execute()`: statement cache / prepare, implicit BEGIN, bind, step.
+`sqlite3_prepare` (statement not in the cache) and the implicit BEGIN reset SQLite's error code;
+binding a later parameter successfully resets it too, so only an overflow of the *first*
+parameter can be reported through a stale constraint error. -/
 def Conn.exec (c : Conn) (s : Stmt) : Conn × SRes :=
-  let c1 := if c.cache.contains s.kind then c else { c with cache := s.kind :: c.cache, stale := false }
-  let c2 := if s.isDML && !c1.inTx then { c1 with inTx := true, stale := false } else c1
+  let prepared := !c.cache.contains s.kind
+  let begins := s.isDML && !c.inTx
+  let stale := c.stale && !prepared && !begins
+  let cache := if prepared then s.kind :: c.cache else c.cache
+  let inTx := c.inTx || s.isDML
   match s.params.findIdx? (fun n => !fits n) with
   | some i =>
-    if i == 0 then (c2, if c2.stale then .integrity else .overflow)
-    else ({ c2 with stale := false }, .overflow)
+    ({ c with inTx := inTx, cache := cache, stale := stale && i == 0 },
+      if i == 0 && stale then .integrity else .overflow)
   | none =>
-    let (w, r) := s.run c2.working
-    ({ c2 with working := w, committed := if c2.inTx then c2.committed else w,
-               stale := r == .integrity }, r)
+    ({ committed := if inTx then c.committed else (s.run c.working).1, working := (s.run c.working).1,
+       inTx := inTx, stale := (s.run c.working).2 == .integrity, cache := cache },
+      (s.run c.working).2)
 
 /-- `conn.commit()` -/
 def Conn.commit (c : Conn) : Conn :=
